@@ -725,3 +725,16 @@ _more("C17", "category types with bit 15 set next to their namesakes; "
       "SDO-sourced PDO assignment lists of 0-3 slots over {0, A, B, C}.")
 _more("C20", "a mapping ended by an exception in its body (cancellation, "
       "error).")
+_more("C16", "entries that refuse the transfer (write-only, not readable in "
+      "the present state, absent subindex, read-only for downloads): a "
+      "refused single-entry upload must not return a value, a refused "
+      "download must not report success.")
+_more("C23", "FMMU map files left behind by earlier sessions (a short one, "
+      "a complete one with a window still marked).")
+_more("C25", "a frame the interface refuses to send (OSError from the "
+      "transport) as a deviation.")
+_more("C26", "motors configured before their sync group exists; the device "
+      "variables of every motor must have places of their own in the map.")
+_more("C27", "a second valve of the same class, confirmed in its position "
+      "and updated, or reset, right before an update of the valve under "
+      "test.")
